@@ -86,6 +86,7 @@ PROPERTY SaturatedStays
   Channels <- cChannels
   MaxReloads = {p.get('maxreloads', 1)}
   MaxAdopt = {p.get('maxadopt', 0 if p.get('patch_limits') else 1)}
+  Queries = {"TRUE" if p.get('queries') else "FALSE"}
 INIT Init
 NEXT Next
 VIEW {"ViewH" if p.get("histview") else "View"}
@@ -202,6 +203,11 @@ class Ctx:
         if o[0] == "clear":
             self.nbase[o[1]] = 0
             return f.clear()
+        if o[0] == "chk":
+            key = self.rk(o[2])
+            return f.check_alt(f.hashes(key)) if self.alt(o) else f.check(key)
+        if o[0] == "est":      # the statistics are queries too
+            return (f.estimate_elements(), f.current_false_positive_rate(), str(f))
         if o[0] == "rt":
             objs[o[1]] = self.reload(f, o[2])
             return None
@@ -405,7 +411,7 @@ class Ctx:
             self._binary(t, table, hf, objs, hist, o, exp, obs, rp2, sig)
         if t.focus in ("C05", "C16", "C01", "C14"):
             # per observable state, and again after a clear / reload / adoption (the file or cached parts may lag behind the live object)
-            key = hash(repr((table, obs[w]["cells"], obs[w]["n"], kind, o[0] if o[0] in ("clear", "rt", "uni", "int") else "")))
+            key = hash(repr((table, obs[w]["cells"], obs[w]["n"], kind, o[0] if o[0] in ("clear", "rt", "uni", "int") else "", hist if self.p.get("histview") else "")))
             if key not in self.rt_seen:
                 self.rt_seen.add(key)
                 self._roundtrip(t, hf, f, obs[w], exp[w], rp2, sig)
@@ -636,10 +642,12 @@ def profiles(tier, seed, light=False):
         for (M, K, H) in [(3, 2, 5), (2, 1, 3), (4, 3, 7)]:
             P.append(dict(cb, M=M, K=K, H=H, ntables=8, cellmax=3, totmax=5, amts=[1, 2, 4, 7], maxn=8, maxdepth=4, patch_limits=True, keys=["a", "b"]))
     # every HISTORY (no state merging) of the smallest instances: behaviour after clear() / reload for every preceding history
-    hv = dict(base, M=3, K=2, H=5, ntables=1, whos=["A"], keys=["a", "b"], histview=True, maxadopt=0, maxn=5)
-    P.append(dict(hv, kinds=("disk", "mem"), maxdepth=5))
-    P.append(dict(hv, kinds=("mem", "mem"), maxdepth=4 if tier == "quick" else 5))
-    P.append(dict(hv, counting=True, amts=[1, 2], cellmax=1000, totmax=1000, maxdepth=4 if tier == "quick" else 5, channels=["bytes", "file"]))
+    # and queries (check, the statistics) are operations of those histories
+    hv = dict(base, M=3, K=2, H=5, ntables=3, whos=["A"], keys=["a", "b"], histview=True, maxadopt=0, maxn=5, queries=True,
+              extra_tables=[{"a": (0, 3), "b": (1, 2)}])      # one key with coinciding probes, the other with two cells: different numbers of set bits
+    P.append(dict(hv, kinds=("disk", "mem"), maxdepth=5, channels=["bytes"]))
+    P.append(dict(hv, kinds=("mem", "mem"), maxdepth=4 if tier == "quick" else 5, channels=["bytes", "hex"]))
+    P.append(dict(hv, counting=True, amts=[1], cellmax=1000, totmax=1000, maxdepth=4 if tier == "quick" else 5, channels=["bytes"]))
     # the strategies the properties quantify over, on real text / bytes keys (table = the strategy's own answers)
     strat = ["fnv", "md5", "sha256", "deco_int", "handwritten"] if tier == "quick" else ["fnv", "md5", "sha256", "deco_int", "deco_bytes", "handwritten"]
     geos = [(7, 5), (9, 2)] if tier == "quick" else [(3, 2), (7, 5), (8, 2), (9, 2), (17, 2), (13, 5)]
@@ -659,6 +667,7 @@ def profiles(tier, seed, light=False):
             p["tables"] = [strategy_table(p["strategy"], p["keys"], p["K"], p["M"])]
         else:
             p["tables"] = gen_tables(p["keys"], p["M"], p["K"], p["H"], p["ntables"], seed * 1000 + i, p.get("exhaustive", False))
+            p["tables"] += [t for t in p.get("extra_tables", []) if t not in p["tables"]]
     return P
 
 
@@ -673,7 +682,7 @@ def run(focus, tier, seed):
     total = Tally(focus)
     jobs = []
     for p in profiles(tier, seed, focus in ("C05", "C14", "C19")):
-        if (focus in FOCUS_FILTER and not FOCUS_FILTER[focus](p)) or (p.get("histview") and focus not in ("C19", "C05", "C14")):
+        if (focus in FOCUS_FILTER and not FOCUS_FILTER[focus](p)) or (p.get("histview") and focus not in ("C19", "C05", "C14", "C01", "C08")):
             continue
         tabs = p["tables"]
         const = {k: v for k, v in p.items() if k != "tables"}
